@@ -11,6 +11,8 @@ package main
 
 import (
 	"fmt"
+	"go/constant"
+	"go/types"
 	"strings"
 
 	"golang.org/x/tools/go/ssa"
@@ -341,4 +343,176 @@ func cellLoads(al *ssa.Alloc) []ssa.Value {
 	}
 	walk(al, 0)
 	return out
+}
+
+// <prop>/kind-arm-does-something: the generators dispatch on the kind of a field (`switch c := f.Attr.(type)`). An arm that is there
+// but does nothing - the checked assertion's value is unused and both of its outcomes lead to the same place - drops every field of
+// that kind from whatever the routine emits (its member, its sample value, its encode step), while the routine still looks
+// exhaustive. go/ssa keeps exactly this remnant of an emptied `case`.
+func kindArmDoesSomething(w *World, wc *wireCtx, r *Report, prop string, roles map[string]bool) {
+	rule := prop + "/kind-arm-does-something"
+	n := 0
+	for _, ga := range anchorTable {
+		for _, fn := range wc.anchors[ga.Lang]["own"] {
+			if roles != nil && !roles[roleOf(fn)] {
+				continue
+			}
+			cnt := 0
+			forEachInstr(fn, func(_ *ssa.BasicBlock, ins ssa.Instruction) {
+				ta, ok := ins.(*ssa.TypeAssert)
+				if !ok || !ta.CommaOk || ta.Referrers() == nil {
+					return
+				}
+				kn := modelTypeName(ta.AssertedType)
+				if _, isKind := kindTypes[kn]; !isKind {
+					return
+				}
+				decides, valueUsed := false, false
+				for _, ref := range *ta.Referrers() {
+					ex, ok := ref.(*ssa.Extract)
+					if !ok || ex.Referrers() == nil {
+						continue
+					}
+					for _, r2 := range *ex.Referrers() {
+						if _, isDbg := r2.(*ssa.DebugRef); isDbg {
+							continue
+						}
+						if ex.Index == 0 {
+							valueUsed = true
+							continue
+						}
+						if iff, ok := r2.(*ssa.If); ok {
+							if b := iff.Block(); len(b.Succs) == 2 && !sameDestination(b, b.Succs[0], b.Succs[1]) {
+								decides = true
+							}
+						} else {
+							decides = true
+						}
+					}
+				}
+				n++
+				cnt++
+				key := fmt.Sprintf("%s: %s: the arm for %s #%d does something", ga.Lang, fnKey(fn), kn, cnt)
+				if decides || valueUsed {
+					r.pass(rule, key, w.instrPos(ta), "")
+				} else {
+					r.fail(rule, key, w.instrPos(ta), fmt.Sprintf("the routine tests the field for being a %s and does nothing on either outcome: fields of that kind are dropped from what it emits", kn))
+				}
+			})
+		}
+	}
+	if n == 0 {
+		r.fail(rule, "kind tests found", "", "no checked assertion of a field's attribute found in the generators examined")
+	}
+}
+
+// C07/row-used-where-found: `row, ok := table[key]` - every use of the row lies behind the ok edge. On the miss edge the row is the
+// zero value (empty type names, empty accessor suffixes): text made from it is emitted into the target file as `write(...)` / an empty
+// type. A negated test (`if row, ok := m[k]; !ok { use(row) }`) keeps the routine's shape and empties what it emits.
+func rowUsedWhereFound(w *World, wc *wireCtx, r *Report, prop string) {
+	rule := prop + "/row-used-where-found"
+	n := 0
+	for _, ga := range anchorTable {
+		for _, fn := range wc.anchors[ga.Lang]["own"] {
+			cnt := 0
+			tests := membershipTests(fn)
+			forEachInstr(fn, func(_ *ssa.BasicBlock, ins ssa.Instruction) {
+				lk, ok := ins.(*ssa.Lookup)
+				if !ok || !lk.CommaOk || lk.Referrers() == nil {
+					return
+				}
+				if _, isMap := lk.X.Type().Underlying().(*types.Map); !isMap {
+					return
+				}
+				var val *ssa.Extract
+				for _, ref := range *lk.Referrers() {
+					if ex, ok := ref.(*ssa.Extract); ok && ex.Index == 0 {
+						val = ex
+					}
+				}
+				if val == nil || val.Referrers() == nil {
+					return
+				}
+				for _, t := range tests {
+					if t.lookup != lk {
+						continue
+					}
+					uses, onMiss := 0, ""
+					// a record-valued row is kept in a local and read member by member: those reads are the uses
+					refs := append([]ssa.Instruction{}, (*val.Referrers())...)
+					for _, ref := range *val.Referrers() {
+						st, ok := ref.(*ssa.Store)
+						if !ok || st.Val != ssa.Value(val) {
+							continue
+						}
+						al, ok := st.Addr.(*ssa.Alloc)
+						if !ok || al.Referrers() == nil {
+							continue
+						}
+						for _, r2 := range *al.Referrers() {
+							switch y := r2.(type) {
+							case *ssa.FieldAddr:
+								if y.Referrers() != nil {
+									refs = append(refs, (*y.Referrers())...)
+								}
+							case *ssa.UnOp:
+								// the whole record read back: what is done with the copy
+								if y.Referrers() != nil {
+									refs = append(refs, (*y.Referrers())...)
+								}
+							}
+						}
+					}
+					for _, ref := range refs {
+						if _, isDbg := ref.(*ssa.DebugRef); isDbg {
+							continue
+						}
+						if st, isSt := ref.(*ssa.Store); isSt && st.Val == ssa.Value(val) {
+							if _, isAl := st.Addr.(*ssa.Alloc); isAl {
+								continue // the spill itself
+							}
+						}
+						if ret, isRet := ref.(*ssa.Return); isRet {
+							// handed back together with "not found" (`return row, "", false`): the caller is told
+							told := false
+							for _, rv := range ret.Results {
+								if k, ok := rv.(*ssa.Const); ok && k.Value != nil && k.Value.Kind() == constant.Bool && !constant.BoolVal(k.Value) {
+									told = true
+								}
+							}
+							if told {
+								continue
+							}
+						}
+						blk := ref.Block()
+						if phi, isPhi := ref.(*ssa.Phi); isPhi {
+							for i, e := range phi.Edges {
+								if e == ssa.Value(val) {
+									blk = phi.Block().Preds[i]
+								}
+							}
+						}
+						uses++
+						if edgeDominates(t.branch, 1-t.presentSucc, blk) {
+							onMiss = w.instrPos(ref)
+						}
+					}
+					if uses == 0 {
+						continue
+					}
+					n++
+					cnt++
+					key := fmt.Sprintf("%s: %s uses table row #%d only where the key was found", ga.Lang, fnKey(fn), cnt)
+					if onMiss == "" {
+						r.pass(rule, key, w.instrPos(lk), "")
+					} else {
+						r.fail(rule, key, onMiss, "the row looked up at "+w.instrPos(lk)+" is used on the edge where the key was NOT found: it is the zero value there, and what is made of it (a type name, an accessor) is emitted empty")
+					}
+				}
+			})
+		}
+	}
+	if n == 0 {
+		r.pass(rule, "checked table lookups found", "", "the generators make no checked lookup whose row they use")
+	}
 }
